@@ -32,6 +32,9 @@ ensure_directory / the index update: two writers creating one v2 bundle (two sch
 creates the data file while a writer stores (after remove_tile created the index only).  The model side of (1) for v2
 is a theorem: v2_failed_store_leaves_valid_bundle (every prefix of the store's writes), with the opposite order refuted.
 
+Configuration of every real defragmentation: the cache directory behaves like a mount point (a rename between a path
+inside it and a path outside raises EXDEV, $TMPDIR is outside); every second history runs in a cache whose path
+contains '.bundle' and '.bundlx'.
 Further fixed scenarios (oracle only): the bundle lock changing hands between three writers (A unlocks, B was
 waiting, C arrives: the two stores must be serialised whatever FileLock.unlock does first); a tile of 2^24 + 5 bytes
 (v2 must refuse it or store it completely, v1 stores it); a reader meeting the writer of a brand-new v1 bundle;
@@ -305,11 +308,37 @@ class Real(object):
                 name = os.path.basename(fname)[:-7]
                 r, c = name[1:].split('C')
                 decisions[(int(lvl[1:]), int(c, 16), int(r, 16))] = bool(defrag)
+        # configuration: the cache directory is a file system of its own (a mount point), as tile caches usually
+        # are: a rename between a path inside it and a path outside fails with EXDEV, exactly as rename(2) does;
+        # the temp directory of the process ($TMPDIR) is outside the cache (a scratch directory next to it)
+        import tempfile
+        import mapproxy.script.defrag as dm
+        root = os.path.realpath(self.dir)
+
+        def inside(path):
+            q = os.path.realpath(os.path.dirname(os.path.abspath(path)))
+            return q == root or q.startswith(root + os.sep)
+
+        class MountOs(object):
+            def __getattr__(self, name):
+                return getattr(os, name)
+
+            def rename(self, src, dst, *a, **kw):
+                if inside(src) != inside(dst):
+                    raise OSError(errno.EXDEV, 'Invalid cross-device link', src)
+                return os.rename(src, dst, *a, **kw)
+            replace = rename
+        saved_os, saved_tmp = dm.os, tempfile.tempdir
+        scratch_tmp = os.path.join(os.path.dirname(root), 'tmpdir')
+        os.makedirs(scratch_tmp, exist_ok=True)
+        dm.os, tempfile.tempdir = MountOs(), scratch_tmp
         try:
             defrag_compact_cache(self.cache, min_percent=min_percent, min_bytes=min_bytes, log_progress=Log())
             return ('ok', decisions)
         except Exception as ex:   # noqa
             return ('raised', type(ex).__name__, decisions)
+        finally:
+            dm.os, tempfile.tempdir = saved_os, saved_tmp
 
 
 def key_of(coord):
@@ -1265,7 +1294,10 @@ def run_case(ctx, version, ops, thresholds, label, probes_extra=()):
     (gallina term, description) for the correspondence."""
     rng = ctx.rng
     d = ctx.tmpdir('c19')
-    cache_dir = os.path.join(d, 'cache')
+    # configuration: every second history runs in a cache whose path contains the bundle file extensions
+    odd_path = (len(ops) + version) % 2 == 0
+    cache_dir = os.path.join(d, 'tiles.bundle.d', 'my.bundlx.cache') if odd_path else os.path.join(d, 'cache')
+    ctx.count('cache-path=%s' % ('contains-.bundle' if odd_path else 'plain'))
     real = Real(version, cache_dir)
     sparse = any(o[0] == 'X' for o in ops)
     replay = {'format': 'v%d' % version, 'label': label,
